@@ -414,6 +414,23 @@ package bgp
 //@   loop 2 invariant (strongestError == nil || isMsgErr(strongestError)) && errClass(strongestError) <= ERROR_HANDLING_SESSION_RESET
 //@   loop 2 decreases restlen
 
+// from C06: "No route is ever installed ... lacking a mandatory attribute": unless the UPDATE already calls for a
+// session reset, validation never returns without having run the mandatory-attribute check when the message
+// announces IPv4 unicast prefixes, and its verdict is the error it remembered (nil exactly when it says "valid")
+//@ props C06
+//@ func ValidateAttribute
+//@   claims post inv-init inv-keep
+//@   loop 0 invariant strongestError == nil || isMsgErr(strongestError)
+//@   ensures result0 <==> result1 == nil
+//@   ensures result1 != nil ==> isMsgErr(result1)
+//@ func ValidateUpdateMsg
+//@   requires m != nil
+//@   claims at-return inv-init inv-keep
+//@   loop 0 invariant strongestError == nil || isMsgErr(strongestError)
+//@   at-return requires ret0 <==> ret1 == nil
+//@   at-return requires ret1 != nil ==> isMsgErr(ret1)
+//@   at-return requires (ret1 == nil || errClass(ret1) < ERROR_HANDLING_SESSION_RESET) && len(m.NLRI) > 0 ==> called(ValidateUpdateMsg$1)
+//@ props C05
 //@ func parseBody
 //@   requires h != nil && len(data) <= 65535
 //@   modifies nothing
